@@ -1,0 +1,159 @@
+//go:build verif
+
+// Contracts for the operators of package operators that zz_contracts_verif.go does not cover (property C15), checked
+// by /verif/govc (comment-only file; no code). Trusted library contracts: /verif/specs/ops.spec.
+package operators
+
+// ---- @pm
+// pmHits(o, v): number of matches the iteration of o's matcher over v yields (ops.spec).
+//@ define pmHits(o *pm, v string) int := acCount(o.matcher.i, o.matcher.matchOnlyWholeWords, v)
+// minPatternLen: the minimum over ALL patterns (0 for an empty list and, as documented, as soon as one pattern is empty).
+//@ func minPatternLen props C15,C07
+//@   modifies nothing
+//@   ensures lowerBound: forall j int :: 0 <= j && j < len(patterns) ==> result <= len(patterns[j])
+//@   ensures attained: len(patterns) > 0 ==> (exists j int :: 0 <= j && j < len(patterns) && result == len(patterns[j]))
+//@   ensures emptyList: len(patterns) == 0 ==> result == 0
+//@   ensures nonNeg: result >= 0
+//@   loop 1
+//@     invariant idx: -1 <= rangeindex && rangeindex < len(patterns)
+//@     invariant allNonEmpty: forall j int :: 0 <= j && j <= rangeindex ==> len(patterns[j]) > 0
+//@     invariant lb: forall j int :: 0 <= j && j <= rangeindex ==> min <= len(patterns[j])
+//@     invariant att: rangeindex >= 0 ==> (exists j int :: 0 <= j && j <= rangeindex && min == len(patterns[j]))
+//@     invariant zero: rangeindex == -1 ==> min == 0
+
+// pmEvaluate. Not capturing: the result is "the iteration over the value has a first match". Capturing: the first
+// min(number of matches, 10) matches are stored, the k-th match (in iteration order) in slot k as value[Start:End].
+//@ func pmEvaluate props C15,C07
+//@   requires tx: !isnil(tx)
+//@   ensures result: result == (acCount(matcher.i, matcher.matchOnlyWholeWords, value) > 0)
+//@   ensures notCapturing: !txCapturing(tx) ==> capCalls == old(capCalls)
+//@   ensures captureCount: txCapturing(tx) ==> capCalls == old(capCalls) + ite(acCount(matcher.i, matcher.matchOnlyWholeWords, value) < 10, acCount(matcher.i, matcher.matchOnlyWholeWords, value), 10)
+//@   ensures firstIsTX0: txCapturing(tx) && result ==> cap0Calls == old(cap0Calls) + 1
+//@   at call "tx.CaptureField(" requires slotInOrder: arg(0) == numMatches && m == acNth(iter, numMatches)
+//@   at call "tx.CaptureField(" requires capturedText: arg(1) == value[mStart(m):mEnd(m)]
+//@   loop 1 vars numMatches
+//@     invariant cnt: 0 <= numMatches && numMatches <= 9 && numMatches <= acTotal(iter)
+//@     invariant pos: acYielded(acTick, iter) == numMatches
+//@     invariant caps: capCalls == old(capCalls) + numMatches
+//@     invariant caps0: cap0Calls == old(cap0Calls) + ite(numMatches > 0, 1, 0)
+
+// (*pm).Evaluate: the length short-circuit never changes the answer, provided minLen is a lower bound of the length of
+// every value the matcher matches (object invariant; see newPM below for where it comes from).
+//@ func (*pm).Evaluate props C15,C07
+//@   requires tx: !isnil(tx)
+//@   requires minLenSound: forall v string :: len(v) < o.minLen ==> pmHits(o, v) == 0
+//@   ensures result: result == (pmHits(o, value) > 0)
+
+// ---- @pm constructors: the list handed to minPatternLen is the list the dictionary is built from (same variable:
+// dict / lines / dataset, captured by the build closure), and minPatternLen is its exact minimum (above), so minLen is
+// the minimum length of the phrases ACTUALLY in the dictionary. The build closures: every match of the automaton they
+// return is an occurrence of an element of that list.
+//@ func newPM$1 props C15,C07
+//@   ensures builtFromDict: isnil(result1) && typeof(result0) == tag("aho_corasick.AhoCorasick") &&
+//@       (forall v string :: acCount(payload(result0, "aho_corasick.AhoCorasick").i, payload(result0, "aho_corasick.AhoCorasick").matchOnlyWholeWords, v) > 0 ==>
+//@           (exists j int :: 0 <= j && j < len(dict) && len(dict[j]) <= len(v)))
+//@ func newPM extend props C15,C07
+//@   ensures isPM: isnil(result1) && typeof(result0) == tag("*pm") && payload(result0, "*pm").minLen >= 0
+// The phrase put into the dictionary must be the listed phrase up to ASCII case (the documented predicate is ASCII-case-
+// insensitive membership of the LISTED phrase). strings.ToLower folds Unicode: fails for a genuine reason, e.g. the listed
+// phrase "İ" (U+0130) becomes "i", so the value "xİ" (which contains the listed phrase) is not matched (confirmed by test).
+//@ func newPM extend
+//@   at call "strings.ToLower(data)" requires phrasesKeptUpToASCIICase: len(lower(data)) == len(data) && foldEqAt(lower(data), 0, data)
+
+//@ func newPMFromFile$1 props C15,C07
+//@   ensures builtFromLines: isnil(result1) && typeof(result0) == tag("aho_corasick.AhoCorasick") &&
+//@       (forall v string :: acCount(payload(result0, "aho_corasick.AhoCorasick").i, payload(result0, "aho_corasick.AhoCorasick").matchOnlyWholeWords, v) > 0 ==>
+//@           (exists j int :: 0 <= j && j < len(lines) && len(lines[j]) <= len(v)))
+// Line filtering: only trimmed lines that are neither blank nor comments reach the dictionary, so no phrase is empty
+// (an empty phrase would match everything) and minPatternLen sees exactly the phrases added.
+//@ func newPMFromFile extend props C15,C07
+//@   ensures isPM: isnil(result1) ==> typeof(result0) == tag("*pm") && payload(result0, "*pm").minLen >= 0
+//@   at call "strings.ToLower(l)" requires notBlankNotComment: len(l) > 0 && l[0] != '#'
+//@   at call "strings.ToLower(l)" requires phraseKeptUpToASCIICase: len(lower(l)) == len(l) && foldEqAt(lower(l), 0, l)
+//@   at call "memoizeDo(" requires noEmptyPhrase: forall j int :: 0 <= j && j < len(lines) ==> len(lines[j]) > 0
+//@   loop 1
+//@     invariant kept: forall j int :: 0 <= j && j < len(lines) ==> len(lines[j]) > 0
+
+//@ func newPMFromDataset$1 props C15,C07
+//@   ensures builtFromDataset: isnil(result1) && typeof(result0) == tag("aho_corasick.AhoCorasick") &&
+//@       (forall v string :: acCount(payload(result0, "aho_corasick.AhoCorasick").i, payload(result0, "aho_corasick.AhoCorasick").matchOnlyWholeWords, v) > 0 ==>
+//@           (exists j int :: 0 <= j && j < len(dataset) && len(dataset[j]) <= len(v)))
+//@ func newPMFromDataset extend props C15,C07
+//@   ensures isPM: isnil(result1) ==> typeof(result0) == tag("*pm") && payload(result0, "*pm").minLen >= 0
+
+// ---- @ipMatch: true exactly when the value parses as an IP address and SOME listed subnet contains it.
+//@ func (*ipMatch).Evaluate props C15,C07
+//@   ensures cidrMembership: result <==> (ipParses(value) && (exists j int :: 0 <= j && j < len(o.subnets) &&
+//@       cidrHas(str(o.subnets[j].IP), str(o.subnets[j].Mask), ipBytes(value))))
+//@   ensures unparsable: !ipParses(value) ==> !result
+//@   loop 1
+//@     invariant idx: -1 <= rangeindex && rangeindex < len(o.subnets)
+//@     invariant noneSoFar: forall j int :: 0 <= j && j <= rangeindex ==> !(ipParses(value) && cidrHas(str(o.subnets[j].IP), str(o.subnets[j].Mask), ipBytes(value)))
+
+// ---- @validateUtf8Encoding: documented to be true on INVALID input.
+//@ func (*validateUtf8Encoding).Evaluate props C15,C07
+//@   ensures trueOnInvalid: result == !utf8Valid(value)
+
+// ---- binary @rx: the regexp decides; a capturing transaction gets the groups of the match in TX.0, TX.1, ... in group
+// order (group g in slot g), the whole match in TX.0; TX.0-9 are the capture slots, so up to ten groups are stored.
+//@ func (*binaryRX).Evaluate props C15,C07
+//@   requires re: o.re != nil
+//@   requires tx: !isnil(tx)
+//@   ensures regexDecides: result == brxMatch(o.re, value)
+//@   ensures noCaptureUnlessMatch: !result || !txCapturing(tx) ==> capCalls == old(capCalls)
+//@   ensures capturesGroup0: result && txCapturing(tx) ==> cap0Calls == old(cap0Calls) + 1 && cap0 == brxGroup(o.re, value, 0)
+//@   ensures storesUpToTenGroups: result && txCapturing(tx) ==> capCalls == old(capCalls) + ite(brxGroups(o.re, value) < 10, brxGroups(o.re, value), 10)
+//@   at call "tx.CaptureField(i, c)" requires groupInItsSlot: arg(0) == i && arg(1) == brxGroup(o.re, value, i)
+//@   loop 1
+//@     invariant idx: -1 <= rangeindex && rangeindex < len(match) && rangeindex <= 9
+//@     invariant shape: len(match) == brxGroups(o.re, value) && len(match) >= 1 && brxMatch(o.re, value)
+//@     invariant groups: forall g int :: 0 <= g && g < len(match) ==> match[g] == brxGroup(o.re, value, g)
+//@     invariant caps: capCalls == old(capCalls) + rangeindex + 1
+//@     invariant caps0: cap0Calls == old(cap0Calls) + ite(rangeindex >= 0, 1, 0) && (rangeindex >= 0 ==> cap0 == brxGroup(o.re, value, 0))
+
+// ---- @validateNid: true exactly when one of the first ten regex matches is a valid id; the i-th match is captured in
+// slot i when it is valid.
+//@ func (*validateNid).Evaluate props C15,C07
+//@   requires re: o.re != nil
+//@   requires fn: o.fn != nil
+//@   requires tx: !isnil(tx)
+//@   ensures someOfFirstTenValid: result <==> (exists i int :: 0 <= i && i < rxAllCount(o.re, value, 11) && i < 10 && nidSays(o.fn, rxAll0(o.re, value, i)))
+//@   ensures noCaptureOnFalse: !result ==> capCalls == old(capCalls)
+//@   at call "tx.CaptureField(i, m[0])" requires validMatchInItsSlot: arg(0) == i && arg(1) == rxAll0(o.re, value, i) && nidSays(o.fn, arg(1))
+//@   loop 1
+//@     invariant idx: -1 <= rangeindex && rangeindex < len(matches) && rangeindex < 10
+//@     invariant shape: len(matches) == rxAllCount(o.re, value, 11) && (forall j int :: 0 <= j && j < len(matches) ==> len(matches[j]) >= 1 && matches[j][0] == rxAll0(o.re, value, j))
+//@     invariant resSoFar: res <==> (exists j int :: 0 <= j && j <= rangeindex && nidSays(o.fn, rxAll0(o.re, value, j)))
+//@     invariant capsOnlyOnTrue: !res ==> capCalls == old(capCalls)
+
+// ---- @detectSQLi / @detectXSS: libinjection decides; SQLi stores the fingerprint in TX.0 (documented), nothing on false.
+//@ func (*detectSQLi).Evaluate props C15,C07
+//@   requires tx: !isnil(tx)
+//@   ensures libinjectionDecides: result == sqliSays(value)
+//@   ensures fingerprintInTX0: result ==> cap0Calls == old(cap0Calls) + 1 && cap0 == sqliFingerprint(value) && capCalls == old(capCalls) + 1
+//@   ensures noCaptureOnFalse: !result ==> capCalls == old(capCalls)
+//@ func (*detectXSS).Evaluate props C15,C07
+//@   ensures libinjectionDecides: result == xssSays(value)
+
+// ---- @restpath: the compiled path regexp decides; every index into the submatch list is in range (the list has one
+// entry per entry of SubexpNames).
+//@ func (*restpath).Evaluate props C15,C07
+//@   requires re: o.re != nil
+//@   requires tx: !isnil(tx)
+//@   ensures regexDecides: result == rxMatch(o.re, value)
+//@   loop 1
+//@     invariant idx: -1 <= rangeindex && rangeindex < rxNumGroups(o.re)
+//@     invariant shape: len(match) == rxNumGroups(o.re) && rxMatch(o.re, value)
+
+// ---- @inspectFile: safety only (the verdict is the external program's output).
+//@ func (*inspectFile).Evaluate props C15,C07
+
+// ---- @ipMatchFromFile / @ipMatchFromDataset: only trimmed lines that are neither blank nor comments are handed to
+// newIPMatch; a missing or empty dataset is an error.
+//@ func newIPMatchFromFile props C15,C07
+//@   at call "dataParsed.WriteString(l)" requires notBlankNotComment: len(l) > 0 && l[0] != '#'
+//@   loop 1
+//@     invariant commaSeparated: len(dataParsed.content) == 0 || dataParsed.content[0] == ','
+//@ func newIPMatchFromDataset props C15,C07
+//@   ensures missingDatasetIsError: !has(options.Datasets, options.Arguments) ==> !isnil(result1)
+//@   ensures emptyDatasetIsError: has(options.Datasets, options.Arguments) && len(options.Datasets[options.Arguments]) == 0 ==> !isnil(result1)
